@@ -23,13 +23,14 @@ Theorem C11_exactly_one_flat :
 Proof. exact exactly_one_flat. Qed.
 Print Assumptions C11_exactly_one_flat.
 
-(* Attributes a model defined itself keep their value through every history; with
+(* Attributes a model defined itself (any value but None — callable or not, truthy or falsy)
+   keep their value through every history; with
    model_override the machine only binds names the model had defined; class attributes are
    never touched. *)
 Theorem C11_no_overwrite :
   forall c ops o, wf_cfg c = true -> wf_run wf_op c empty_mach ops = true ->
   In o (m_models (run c ops)) ->
-  (c_over c = false -> forall n k, getattr (orig o) n = Some (VPre k) -> getattr o n = Some (VPre k))
+  (c_over c = false -> forall n v, own_val v = true -> getattr (orig o) n = Some v -> getattr o n = Some v)
   /\ (c_over c = true -> forall n v, alookup n (o_inst o) = Some v ->
         n = c_attr c \/ getattr (orig o) n <> None)
   /\ o_cls (orig o) = o_cls o.
